@@ -286,6 +286,9 @@ class SymEval:
             base = dotted_name(n.value)
             if base is not None and isinstance(n.slice, ast.Constant):
                 k = f"{base}[{n.slice.value!r}]"
+                if k not in self.env and base in self.env and hasattr(self.env[base], "key") and "(" in self.env[base].key():
+                    # an entry of a container that came out of a call the abstraction has no meaning for: not interpreted
+                    return Term.sym(f"<{self.env[base].key()}[{n.slice.value!r}]>")
                 return self.env.get(k, Term.sym(k))
             k = norm(n)                       # table lookup with a symbolic key: an opaque atom
             return self.env.get(k, Term.sym(k))
